@@ -22,8 +22,8 @@ COMPONENTS = {
 TRUSTED_BASE = [
     "Lean 4.33 kernel; axioms of every listed theorem audited to be a subset of {propext, Classical.choice, Quot.sound}",
     "Mathlib v4.33 modules imported by the proof files",
-    "hand-written Lean model tied to /repo only by this correspondence run (harness/*.py, lean/Driver.lean, lean/PymoodeModel/Drv/*)",
-    "theorems are over an arbitrary linearly ordered field; IEEE rounding is not modelled",
+    "hand-written Lean model tied to /repo by this correspondence run (harness/*.py, lean/Driver.lean, lean/PymoodeModel/Drv/*) and, for the arithmetic / decision formulas of dem.py, dex.py and replacement.py, by obligations generated from the current source on every run (harness/translate.py: Python AST -> Lean term, proved equal to the model's definition by rfl / simp); the translator itself (expression printer, positional statement selection) is trusted",
+    "theorems are over an arbitrary linearly ordered field; IEEE rounding is not modelled (except in C01b, under an abstract monotone rounding)",
     "numpy.random primitives are recorded by wrapping module attributes; their distribution is not modelled",
 ]
 
